@@ -775,6 +775,8 @@ def kernel_gh_write_continuous(kern):
     """developer guide, First Creation case 2: a kernel that modifies a continuous (or any_space) field and
     whose updates all have GH_WRITE access writes shared dofs with a cell-independent value and does not
     access annexed dofs of what it reads"""
+    if kern["on"] != "cell_column":
+        return False
     upd = [a for a in kern["args"] if a["acc"] != "READ"]
     return bool(upd) and all(a["acc"] == "WRITE" for a in upd) and any(not meta_discontinuous(a["fs"]) for a in upd)
 
@@ -996,8 +998,10 @@ def check_schedule(stmts, kerns, vecs, annexed_cfg, Mmax=3):
     if any(not c for c in cands.values()):
         raise OutOfSubset("field with inconsistent function spaces")
     lo = needed_literals(stmts, kerns)
+    # a reader at maximum depth after a writer at literal depth k only shows a problem for M >= k + 2
+    Mmax = max(Mmax, lo + 2)
     runs, fails, seen, configs, unsafe = 0, [], set(), [], set()
-    for M in range(lo, max(lo, Mmax) + 1):
+    for M in range(lo, Mmax + 1):
         for exts in itertools.product(range(1, M + 1), repeat=len(extvars)):
             env = dict(zip(extvars, exts))
             # validity does not depend on continuity (only annexed flags do)
